@@ -317,35 +317,43 @@ def run_call(case, ctx):
     if be:
         ctx.count('endian:big')
     nontrivial = False
+    _rng = random.Random(repr(case)[:120])
+
+    def _twice(make):
+        # the same request twice in one process; the first result is edited by its owner in between
+        g = make()
+        A.own_and_edit(g, _rng)
+        return make()
+
     try:
         if f.startswith('generate_'):
             a = case['args']
             if f == 'generate_sub_two_numbers':
-                ar.generate_sub_two_numbers(a[0], a[1], big_endian=be)
+                _twice(lambda: ar.generate_sub_two_numbers(a[0], a[1], big_endian=be))
                 nontrivial = a[0] >= 2
             elif f == 'generate_div_mod':
-                ar.generate_div_mod(a[0], big_endian=be)
+                _twice(lambda: ar.generate_div_mod(a[0], big_endian=be))
                 ctx.count('divmod:zero_divisor_possible')
                 nontrivial = a[0] >= 2
             elif f == 'generate_sqrt':
-                ar.generate_sqrt(a[0], big_endian=be)
+                _twice(lambda: ar.generate_sqrt(a[0], big_endian=be))
                 nontrivial = a[0] >= 2
             elif f == 'generate_equal':
                 if a[1] >= (1 << a[0]):
                     ctx.count('equal:does_not_fit')
-                ar.generate_equal(a[0], a[1])
+                _twice(lambda: ar.generate_equal(a[0], a[1]))
                 nontrivial = a[0] >= 2
             elif f == 'generate_plus_one':
-                gn.generate_plus_one(a[0], a[1], big_endian=be)
+                _twice(lambda: gn.generate_plus_one(a[0], a[1], big_endian=be))
                 nontrivial = a[0] >= 2
             elif f == 'generate_if_then_else':
-                gn.generate_if_then_else()
+                _twice(lambda: gn.generate_if_then_else())
                 nontrivial = True
             elif f == 'generate_pairwise_if_then_else':
-                gn.generate_pairwise_if_then_else(a[0])
+                _twice(lambda: gn.generate_pairwise_if_then_else(a[0]))
                 nontrivial = a[0] >= 2
             elif f == 'generate_pairwise_xor':
-                gn.generate_pairwise_xor(a[0])
+                _twice(lambda: gn.generate_pairwise_xor(a[0]))
                 nontrivial = a[0] >= 2
         else:
             host = netgen.from_description(case['host'])
